@@ -1,10 +1,6 @@
 INIT Init
 NEXT Next
-INVARIANT TypeOK
 INVARIANT HandedOutStable
-INVARIANT StoreIsolated
-INVARIANT Bounded
-PROPERTY ReadOnlyFrame
 CONSTANTS
   StoreIn = FALSE
   InPlace = FALSE
@@ -12,7 +8,7 @@ CONSTANTS
   FirstWriteKeeps = FALSE
   HookEditsOld = FALSE
   LendsOld = FALSE
-  MergeFiltersSrc = FALSE
+  MergeFiltersSrc = TRUE
   InitKinds = {"absent", "present"}
   NCases = 0
   MinOps = 1
